@@ -1355,7 +1355,7 @@ class Lowerer:
                 at = self.ntype(args[0])
                 at = at[1] if at[0] == 'ref' else at
                 if name == 'Print' and at[0] == 'f':
-                    return ('toks', ('str',), [('NUM', self.rv(args[0]))])
+                    return ('toks', ('str',), [('NUM', self.rv(args[0]), at[1])])
                 if name == 'Abbreviation' and at[0] == 'enum':
                     return ('toks', ('str',), [('ABBR', at[1], self.rv(args[0]))])
         return None
@@ -1428,6 +1428,17 @@ class Lowerer:
                     return ('lib', ('ptr', base_t[1]), 'vec_data', [self.addr_of(l)])
                 if name == 'size':
                     return ('lib', SIZE_T, 'vec_size', [self.addr_of(l)])
+                if name in ('operator[]', 'at', 'front', 'back'):
+                    # element access: the library precondition index < size() travels with the access (checked where the C is verified)
+                    if name == 'front':
+                        idx = ('const', SIZE_T, 0)
+                    elif name == 'back':
+                        idx = ('bin', SIZE_T, '-', ('lib', SIZE_T, 'vec_size', [self.addr_of(l)]), ('const', SIZE_T, 1))
+                    else:
+                        idx = self.rv(args[0])
+                    return ('deref', base_t[1], ('lib', ('ptr', base_t[1]), 'vec_elem', [self.addr_of(l), idx]))
+                if name == 'empty':
+                    return ('bin', BOOL, '==', ('lib', SIZE_T, 'vec_size', [self.addr_of(l)]), ('const', SIZE_T, 0))
             if base_t[0] == 'map':
                 tbl = self.table_const(b)
                 self.cur.libs.add('table:' + tbl[2])
